@@ -8,7 +8,8 @@
 //! Ops: `c07_scan <v> <S> <majLo> <majHi> <minLo> <minHi> <tx>`; `c07_scan_pb <v> <S> <ranges×4> <prefix> <base>` with
 //! `<base>` = `none` | `<type>:<ecdh,…|->:<commitment,…|->`; `c08_open <v> <S> <R> <n> <ecdh> <commitment>` -> `none` |
 //! `ok <amount> <mask>`; `c07_scenario <seed> <ranges×4> <ver> <rct> <main> <extra> <T> <fill> <out>…` -> `<h> <scan result>`
-//! (grammar: see Drv/C07.lean; the transaction is built here by `build`, `<h>` = Keccak(prefix ‖ base)[0..8]).
+//! (grammar: see Drv/C07.lean; the transaction is built here by `build`, `<h>` = Keccak(prefix ‖ base)[0..8]; extra letters `S` / `L` =
+//! additional-key list one key short / one key too long; "corrupt" letters `0` / `1` / `L` = legacy mask forced to 0 / 1 / l-1).
 //! Entries end with `:<output key>/<view tag|->/<clear amount>` (`OwnedTxOut::out()`); `c08_open` prints the recomputed commitment
 //! (`Opening::commitment`, compressed) as third field. `c07_check <v> <S> <ranges×4> <n> <P> <R>` -> `none` | `<major>/<minor>`:
 //! `SubKeyChecker::check` and `check_with_key_generator` on a checker built by `SubKeyChecker::new` (`CHECK-DIFFER` if the two
@@ -988,6 +989,20 @@ fn family_boundary_masks(o: &mut Out, rng: &mut Rng, thorough: bool) {
                 let identity = hex(&enc(&EdwardsPoint::identity()));
                 o.direct(s.expected.contains(&format!(":0:{}:{}:", hex(Scalar::ZERO.as_bytes()), identity)), "family invariant: amount 0 with mask 0 is expected with the identity as commitment", trunc(&line, 300), trunc(&s.expected, 200), "…:0:00…:0100…:…".into());
                 wire_scan(o, &s, &line, "c08:boundary-masks");
+                // the identity commitment (amount 0, mask 0) in NON-CANONICAL dress on chain (x = "-0"; y = p + 1): dalek decompresses both to
+                // the identity, the output opens and the reported commitment is the canonical encoding (audit C08 §4.6)
+                let zero_pos = if at == 0 { 1 } else { 0 };
+                let base = s.base.clone().unwrap();
+                let head = format!("c07_scan_pb {} {} {} {} {} {} {}", hex(s.vp.view.as_bytes()), hex(s.vp.spend.as_bytes()), s.r[0], s.r[1], s.r[2], s.r[3], hex(&serialize(&s.prefix)));
+                let dresses = ["0100000000000000000000000000000000000000000000000000000000000080", "eeffffffffffffffffffffffffffffffffffffffffffffffffffffffffffff7f"];
+                for d in if thorough { dresses.to_vec() } else { vec![*rng.pick(&dresses)] } {
+                    let mut b = base.clone();
+                    let was = hex(&b.out_pk[zero_pos].mask.key);
+                    b.out_pk[zero_pos] = CtKey { mask: Key { key: unhex(d).try_into().unwrap() } };
+                    let got = o.op(format!("{} {}", head, base_text(&Some(b))), true);
+                    o.direct(was == identity && got == s.expected, "an identity commitment in non-canonical encoding on chain opens like the canonical one (reported commitment canonical)", format!("{} {}", d, trunc(&line, 300)), trunc(&got, 300), trunc(&s.expected, 300));
+                    o.stat("c08:boundary-masks:noncanonical-identity");
+                }
             }
         }
     }
